@@ -235,3 +235,32 @@ def run_goals(pid, goals, shard=60, prec=64, timeout=900, header=HEADER):
             except OSError:
                 pass
     return failing, errors
+
+
+def disturb(rnd, obj, xa, p=0.5):
+    """Calls that must leave a distribution's misfit()/gradient() as they are: evaluations elsewhere, repeated
+    evaluations, generate() with a private generator, corrector on copies.  Exceptions are ignored here (other
+    checks look at them); what matters is that the evaluation that follows is unaffected."""
+    import numpy
+    if rnd.random() > p:
+        return "none"
+    done = []
+    with numpy.errstate(all="ignore"):
+        for what in rnd.sample(["elsewhere", "repeat", "generate", "corrector"], rnd.randint(1, 3)):
+            try:
+                if what == "elsewhere":
+                    other = xa + numpy.array([[rnd.choice([-0.5, 0.25, 1.0])] for _ in range(xa.shape[0])])
+                    obj.misfit(other.copy())
+                    obj.gradient(other.copy())
+                elif what == "repeat":
+                    obj.misfit(xa.copy())
+                    obj.gradient(xa.copy())
+                    obj.misfit(xa.copy())
+                elif what == "generate":
+                    obj.generate(rnd.choice([1, 2]), rng=numpy.random.default_rng(rnd.randrange(1000)))
+                else:
+                    obj.corrector(xa.copy(), numpy.ones_like(xa))
+                done.append(what)
+            except Exception:  # noqa
+                pass
+    return "+".join(done) or "none"
